@@ -119,6 +119,52 @@ def jobs_C09(tier, scale):
     return jobs
 
 
+def jobs_C10(tier, scale):
+    cl = _classes(["DS", "US", "DL", "UL"], ["int", "string"])
+    q = tier == "quick"
+    return [graph_job("C10", "sub", cl, tier, scale, 4000, 100000, "generated graphs, all 2^n subsets for n<=6, generated subsets above", nmax=9, subsets=6, max_size=50),
+            enum_job("sub", "graphs", dict(prop="C10", classes=_classes(["DS", "DL"], ["int"]), dmin=0, dmax=3 if q else 3, orders=2 if q else 3), tier, "every directed graph on <=3 vertices x every subset"),
+            enum_job("sub", "graphs", dict(prop="C10", classes=_classes(["US", "UL"], ["int"]), umin=0, umax=3 if q else 4, orders=2), tier,
+                     "every undirected graph on <=%d vertices x every subset" % (3 if q else 4))]
+
+
+def jobs_C11(tier, scale):
+    q = tier == "quick"
+    cl = _classes(["DS", "US", "DL", "UL"], ["int"])
+    jobs = [graph_job("C11", "bfs", cl, tier, scale, 4000, 150000, "generated graphs n<=10 (cycles through the source, loops, components, ties)", nmax=10, max_size=60),
+            enum_job("bfs", "graphs", dict(prop="C11", classes="DS:none", dmin=0, dmax=3, orders=2), tier, "every directed graph on <=3 vertices, all sources and destinations"),
+            enum_job("bfs", "graphs", dict(prop="C11", classes="US:none", umin=0, umax=4, orders=2), tier, "every undirected graph on <=4 vertices, all sources and destinations")]
+    if not q:
+        jobs += [enum_job("bfs", "graphs", dict(prop="C11", classes="DS:none", dmin=4, dmax=4, orders=1), tier, "every directed graph on 4 vertices (65536)"),
+                 enum_job("bfs", "graphs", dict(prop="C11", classes="US:none", umin=5, umax=5, orders=1), tier, "every undirected graph on 5 vertices (32768)")]
+    return jobs
+
+
+def jobs_C12(tier, scale):
+    q = tier == "quick"
+    cl = _classes(["DW", "UW"])
+    jobs = [graph_job("C12", "dij", cl, tier, scale, 4000, 100000, "generated graphs n<=12, integer weights 0..16 (exact)", nmax=12, xmax=17, extra="wmode int", max_size=60),
+            graph_job("C12", "dij", cl, tier, scale, 2000, 60000, "generated graphs, weights k/8 (exact)", nmax=10, xmax=4096, extra="wmode frac", max_size=60),
+            graph_job("C12", "dij", cl, tier, scale, 2000, 60000, "generated graphs, weights k/7 (rounded, tolerance 2n*2^-52*max(1,ref))", nmax=10, xmax=600, extra="wmode rounded", max_size=60),
+            enum_job("dij", "w4", dict(prop="C12", classes="DW:none", dmin=0, dmax=2, orders=2, extra="wmode abs012"), tier, "directed n<=2 x weights {absent,0,1,2}, all sources"),
+            enum_job("dij", "w4", dict(prop="C12", classes="UW:none", umin=0, umax=3, orders=2, extra="wmode abs012"), tier, "undirected n<=3 x weights {absent,0,1,2}, all sources")]
+    if not q:
+        jobs += [enum_job("dij", "w4", dict(prop="C12", classes="DW:none", dmin=3, dmax=3, orders=1, extra="wmode abs012"), tier, "directed n=3 x weights {absent,0,1,2} (262144)"),
+                 enum_job("dij", "w4", dict(prop="C12", classes="UW:none", umin=4, umax=4, orders=1, extra="wmode abs012"), tier, "undirected n=4 x weights {absent,0,1,2} (1048576)")]
+    return jobs
+
+
+def jobs_C19(tier, scale):
+    def fam(executor, classes, quick, thorough, label, **cfg):
+        c = dict(prop="C19", classes=classes)
+        c.update({k: str(v) for k, v in cfg.items()})
+        return dict(engine="pbt", executor=executor, config="san", gen="family", cfg=c, cases=_n(tier, quick, thorough, scale), shards=8 if tier == "quick" else 16, max_size=100, label=label)
+    return [fam("bfs", _classes(["DS", "US", "DL", "UL"], ["int"]), 600, 12000, "layered / grid / complete DAG / ladder / diamond-chain families, every source: BFS scans <= V and <= V+E"),
+            fam("dij", _classes(["DW", "UW"]), 600, 12000, "the same families with all-zero, all-one and varying weights: Dijkstra scans <= V+E+1"),
+            graph_job("C19", "bfs", _classes(["DS", "US"]), tier, scale, 1500, 40000, "random graphs n<=40", nmax=40, max_size=100),
+            graph_job("C19", "dij", _classes(["DW", "UW"]), tier, scale, 1500, 40000, "random weighted graphs n<=30, weights 0..4 (ties and zero-weight cycles)", nmax=30, xmax=5, extra="wmode int", max_size=100)]
+
+
 RULE_HIST = ("rapidcheck-generated call histories (0-%d ops, sizes 0-12) executed against the real class and an independent std::map model; "
              "all public observers compared after every step. ")
 
@@ -167,6 +213,28 @@ PROPS = {
                 "constructors from vector/list/deque/forward_list/set/multiset: size 1+max index (0 if empty), result == resize + one add per element, same observations; "
                 "copy construction/assignment equal and independent both ways. Non-trivial: a non-loop edge with a non-default label crosses a conversion, or a constructor input with a repeated pair.",
                 assumptions=["set/multiset containers are skipped for the struct label (no operator<)"]),
+    "C10": dict(jobs=jobs_C10, min_nontrivial=dict(quick=300, thorough=3000),
+                rule="generated graphs (directed/undirected, labels none/int/string, loops) and every graph of the small exhaustive scopes; for n<=6 all 2^n vertex subsets, above that generated subsets plus the "
+                "empty and the full set. Oracle: getSubgraph has size n and exactly the induced edges with their labels, each listed once, edge count = induced count; getSubgraphWithRemap has size |S|, "
+                "its map is a bijection of S onto 0..|S|-1 (any bijection accepted) under which edges and labels are exactly the induced ones; the source graph is unchanged. "
+                "Non-trivial: a proper non-empty S with >=1 edge inside and >=1 edge crossing its boundary.", assumptions=[]),
+    "C11": dict(jobs=jobs_C11, min_nontrivial=dict(quick=300, thorough=3000), exhaustive_scope=dict(quick="directed n<=3, undirected n<=4", thorough="directed n<=4, undirected n<=5"),
+                rule="every graph of the exhaustive scopes and generated graphs n<=10, every source and destination. Reference: all-pairs hop distances by repeated relaxation on the model, the set of all "
+                "shortest paths by recursion over in-neighbours one hop closer. Oracle: both predecessor searches return the reference distances (sentinel when unreachable); the single predecessor is "
+                "an in-neighbour one hop closer; the all-predecessor list is exactly that set without repeats; findGeodesics / ...FromVertex return [s], empty, or a walk along edges with dist hops; "
+                "findAllGeodesics / ...FromVertex equal the reference set (no duplicate, none missing). Which shortest path is chosen is not asserted. "
+                "Non-trivial: >=2 shortest paths to some vertex, a cycle through the source, or an unreachable vertex.", assumptions=[]),
+    "C12": dict(jobs=jobs_C12, min_nontrivial=dict(quick=300, thorough=3000), exhaustive_scope=dict(quick="directed n<=2, undirected n<=3 x {absent,0,1,2}", thorough="directed n<=3, undirected n<=4 x {absent,0,1,2}"),
+                rule="exhaustive small topologies x weight alphabet {absent,0,1,2} and generated graphs n<=12 (integer, k/8 and k/7 weights), every source. Reference: Bellman-Ford on the model. "
+                "Oracle: distances equal the reference (exactly in the exact modes, within 2n*2^-52*max(1,ref) otherwise), dist[s]=0, pred[s]=s, reached v: edge (pred,v) exists and "
+                "dist[v]=dist[pred]+w, unreachable: +inf and sentinel; termination asserted by a scan budget of 100(V+E+1) on an instrumented graph type. "
+                "Non-trivial: a zero-weight cycle, two routes of equal weight, or an unreachable vertex.", assumptions=["weights >= 0 and finite"]),
+    "C19": dict(jobs=jobs_C19, min_nontrivial=dict(quick=200, thorough=2000),
+                rule="graph families with exponentially many shortest paths (layered width 2-4 x depth <=40, grids, diamond chains), complete DAGs, bidirected ladders with zero-weight cycles, and random "
+                "graphs; every source. The searches run on an instrumented graph type that counts getOutNeighbours calls and throws beyond the stated bound: <=V (findVertexPredecessors), "
+                "<=V+E (findAllVertexPredecessors), <=V+E+1 (findGeodesicsDijkstra, weights>=0), E = total neighbour-list length. "
+                "Non-trivial: some vertex has more shortest paths than V+E (BFS) or the graph has a tie or zero-weight cycle (Dijkstra).",
+                assumptions=["one getOutNeighbours call per neighbourhood scan (the observation the property names)"]),
     "C16": dict(jobs=jobs_C16, min_nontrivial=dict(quick=300, thorough=3000),
                 rule=RULE_HIST % 80 + "Non-trivial: a forced duplicate exists and is later removed by removeDuplicateEdges or removeEdge.",
                 assumptions=["all copies of a pair carry the same label/weight/multiplicity (by construction)", "multigraph: weaker reading (deduplicated graph holds each pair once with the multiplicity its copies carried)"]),
